@@ -32,7 +32,7 @@ echo "== coqchk"
 tools/coqchk_all.sh | tail -12
 echo "== quick checks, seed 0"
 for id in $(/venv/bin/python -c "import json;print(' '.join(c['property_id'] for c in json.load(open('MANIFEST.json'))['checks']))"); do
-  VERIF_SEED=0 ./check $id --tier quick 2>&1 | grep -v "^KNOWN-FINDING" | tail -1
+  VERIF_SEED=0 ./check $id --tier quick 2>&1 | grep -v "^KNOWN-FINDING" | grep " quick: \|^VIOLATION\|Error\|Traceback" | tail -3
 done
 echo "== schemas"
 python3-vt - <<'PY'
